@@ -88,3 +88,29 @@ Theorem C19_legacy_ids_file_refuted :
   /\ front_end false [] None [] (Some (join_lines ids)) (fun s i => Ok (s, i)) = Ok (None, Some ids).
 Proof. exact legacy_ids_file_refuted. Qed.
 Print Assumptions C19_legacy_ids_file_refuted.
+
+(* a file with Windows line ends gives the same list *)
+Theorem C19_splitlines_join_crlf : forall ids, Forall cleanP ids -> splitlines (join_crlf ids) = ids.
+Proof. exact splitlines_join_crlf. Qed.
+Print Assumptions C19_splitlines_join_crlf.
+
+(* whatever the file holds, no entry read from it contains a line boundary *)
+Theorem C19_splitlines_clean : forall s, Forall cleanP (splitlines s).
+Proof. exact splitlines_clean. Qed.
+Print Assumptions C19_splitlines_clean.
+
+(* what the verdicts of the two checkers mean *)
+Theorem C19_holds_inv_sound : forall v, holds_inv v = true ->
+  (v_sopts v <> [] -> (exists t, v_sfile v = Some t) -> v_exit v = 2 /\ v_got v = None)
+  /\ (v_got v = None -> v_exit v <> 0).
+Proof. exact holds_inv_sound. Qed.
+Print Assumptions C19_holds_inv_sound.
+
+Theorem C19_holds_cli_sound : forall k, holds_cli k = true ->
+  (c_both k = true -> c_exit k = 2)
+  /\ (c_both k = false -> forall o, c_py k = Ok o -> c_exit k = 0 /\ c_out k = o)
+  /\ (c_both k = false -> forall e, c_py k = Err e -> c_exit k <> 0)
+  /\ (c_raised k = true -> c_exit k <> 0)
+  /\ (forall e o, c_alt k = Some (e, o) -> e = c_exit k /\ (e = 0 -> o = c_out k)).
+Proof. exact holds_cli_sound. Qed.
+Print Assumptions C19_holds_cli_sound.
